@@ -201,11 +201,15 @@ class Drillhole(Points):
             return None
 
         if self.collar is not None:
-            return mask_by_extent(
+            mask = mask_by_extent(
                 np.c_[[self.collar["x"], self.collar["y"], self.collar["z"]]].T,
                 extent,
                 inverse=inverse,
             )
+            if not np.any(mask):
+                return None
+
+            return mask
 
         return None
 
